@@ -1114,6 +1114,10 @@ emitTheC(EmitInfo finfo, CCodeList cco)
 
 					sprintf(fnnew + k, "%.*d",
 						FN_SUFF_LEN, nf);
+					/* A part must not take the name of the main C file. */
+					if (strEqual(fnnew, fnameName(fn)))
+						sprintf(fnnew + k, "%.*d",
+							FN_SUFF_LEN + 1, nf);
 
 					fname = fnameNew(fnameDir(fn),
 							 fnnew,
